@@ -211,6 +211,14 @@ class DocGen:
             n = 'p'          # undeclared prefixes are rejected; keep the grammar valid
         used = set()
         attrs = ''.join(self.attr(used) for _ in range(rng.randint(0, 3)))
+        if rng.random() < .12:
+            # a prefixed element whose prefix is bound on the element itself to somebody else's namespace - also a prefix the
+            # template language uses by default: the binding on the tag is what counts, so this is unmarked markup
+            pre = rng.choice(['ns', 'svg', 'tal', 'metal', 'i18n', 'meta', 'x'])
+            n = pre + ':' + rng.choice(['el', 'document', 'block', 'note'])
+            decl = self.ws() + 'xmlns:%s="%s"' % (pre, rng.choice(['urn:own', 'http://example.org/own', 'http://apache.org/cocoon/i18n/2.1']))
+            attrs = (decl + attrs) if rng.random() < .5 else (attrs + decl)
+            self.knobs.add('prefix-bound-on-the-element-itself')
         k = rng.random()
         if k < 0.2:
             self.knobs.add('self-closing')
